@@ -22,7 +22,7 @@ RULE = (
     "(thorough) are run to completion. Drivers: scripted optimizer (4 call-backs: f, g, f+g, f at three points; "
     "NaN-tolerant and intolerant), real slsqp and differential_evolution(seed) on a toy problem, evaluator step with 1-3 "
     "vectors. Configuration alphabet: filter {none, sort-objective, sort-constraint, cvar-objective, cvar-constraint} x "
-    "estimator {mean, stddev} x transforms {none, variables, objectives, constraints} x realization_min_success {0,1,R} x "
+    "estimator {mean, stddev, mean with merged gradient estimation} x transforms {none, variables, objectives, constraints} x realization_min_success {0,1,R} x "
     "max_functions {none, 1..run length}. Reference exit-code model replays the fault pattern (thresholds, filter weights "
     "from the real filter, stddev needs 2 positive weights, NaN tolerance, budget). Oracle: the step returns normally with "
     "exactly that code; only the injected ValueError escapes, unchanged; function evaluations <= max_functions (+1 batch "
@@ -56,8 +56,9 @@ def build_config(case: dict[str, Any]) -> tuple[dict[str, Any], Any, tuple[int, 
         "realizations": {"weights": [1.0, 3.0], "realization_min_success": case["rms"]},
         "objectives": {"weights": [1.0, 2.0], "function_estimators": list(emap[:2])},
         "nonlinear_constraints": {"lower_bounds": [-50.0], "upper_bounds": [50.0], "function_estimators": [emap[2]]},
-        "function_estimators": [{"method": "mean"}, {"method": "stddev"}],
-        "gradient": {"number_of_perturbations": P, "perturbation_min_success": 1, "perturbation_magnitudes": 0.25},
+        "function_estimators": [{"method": "mean"}] if case["estimator"] == "merge" else [{"method": "mean"}, {"method": "stddev"}],
+        "gradient": {"number_of_perturbations": P, "perturbation_min_success": 1, "perturbation_magnitudes": 0.25,
+                     "merge_realizations": case["estimator"] == "merge"},
         "samplers": [{"method": "verif/design", "options": {"design": [[1.0], [-0.5]]}, "shared": True}],
         "optimizer": {},
     }
@@ -398,7 +399,7 @@ def judge_run(case: dict[str, Any], run: dict[str, Any]) -> Judgement:
 def configs(tier: str) -> list[dict[str, Any]]:
     out = []
     for flt in FILTERS:
-        for est in ("mean", "stddev"):
+        for est in ("mean", "stddev", "merge"):
             for t in TRANSFORMS:
                 for rms in (0, 1, R):
                     out.append({"filter": flt, "estimator": est, "transforms": t, "rms": rms})
